@@ -51,9 +51,14 @@ def main():
                 continue
             shutil.copy(demo, os.path.join(clean, "demo_seed.py"))
             shutil.copy(demo, os.path.join(mut, "demo_seed.py"))
-            t = run(TESTS, mut, mut)
-            tests_ok = t.returncode == 0
-            tail = (t.stdout.strip().splitlines() or ["?"])[-1]
+            # the integration tests are timing-sensitive on a busy machine: a failing run is repeated (twice at most) and the
+            # patch is kept only if a complete run passes
+            for attempt in range(3):
+                t = run(TESTS, mut, mut)
+                tests_ok = t.returncode == 0
+                tail = (t.stdout.strip().splitlines() or ["?"])[-1]
+                if tests_ok:
+                    break
             d_mut = run([PY, "demo_seed.py"], mut, mut)
             d_clean = run([PY, "demo_seed.py"], clean, clean)
             ok = tests_ok and d_mut.returncode != 0 and d_clean.returncode == 0
